@@ -120,6 +120,22 @@ def mk_bin(op, ty, a, b):
             return a
         if op in ("shl", "lshr", "mul", "udiv", "urem", "srem", "sdiv") and is_c(a) and a[2] == 0 and op not in ("mul",):
             return zero
+    if bits and 1 < bits <= 128 and op == "ashr" and is_c(b) and not is_c(a):
+        ra = _range(a)
+        if ra is not None and ra[0] >= 0:
+            return mk_bin("lshr", ty, a, b)       # arithmetic and logical right shifts agree on non-negative values
+    if bits and 1 < bits <= 128 and op == "or" and (is_c(a) != is_c(b)):
+        # k | y == k + y when y is non-negative and below the lowest set bit of k (disjoint bits)
+        k_, y_ = (a, b) if is_c(a) else (b, a)
+        ry = _range(y_)
+        if k_[2] and ry is not None and ry[0] >= 0 and ry[1] < (k_[2] & -k_[2]):
+            return mk_bin("add", ty, y_, k_)
+    if bits and 1 < bits <= 128 and op == "shl" and is_c(a) and b[0] == "op" and b[1] == "add" and (is_c(b[3]) != is_c(b[4])):
+        # c << (k + y) == (c << k) << y when 0 <= k, 0 <= y and k + y stays below the width (no shift is out of range)
+        k_, y_ = (b[3], b[4]) if is_c(b[3]) else (b[4], b[3])
+        ry = _range(y_)
+        if ry is not None and ry[0] >= 0 and 0 <= sval(k_) and sval(k_) + ry[1] < bits:
+            return mk_bin("shl", ty, C(bits, a[2] << sval(k_)), y_)
     if bits and op == "sub" and b[0] == "op" and b[1] == "mul":
         # x - (x / y) * y == x % y (same signedness of the division), whatever the values (y == 0 is undefined for both)
         for q_, y_ in ((b[3], b[4]), (b[4], b[3])):
@@ -312,6 +328,8 @@ def _range(e, depth=0):
             r = (x[0] << y[0], x[1] << y[0])
         elif e[1] == "ashr" and y[0] == y[1] and 0 <= y[0] < b:
             r = (x[0] >> y[0], x[1] >> y[0])
+        elif e[1] == "lshr" and y[0] == y[1] and 0 <= y[0] < b and x[0] >= 0:
+            r = (x[0] >> y[0], x[1] >> y[0])
         else:
             return None
         return r if lo_ <= r[0] and r[1] <= hi_ else None
@@ -426,6 +444,10 @@ def mk_cast(op, ty, a, ty2):
         return mk_bin("sdiv", ty2, mk_cast("sext", ty, a[3], ty2), C(b2, sval(a[4])))      # a quotient never leaves the dividend's range
     if op == "zext" and b1 and b2 and b2 <= 128 and a[0] == "op" and a[1] in ("udiv", "lshr") and is_c(a[4]) and a[4][2] != 0:
         return mk_bin(a[1], ty2, mk_cast("zext", ty, a[3], ty2), C(b2, a[4][2]))
+    if op == "sext" and b1 and b2 and b2 <= 128 and a[0] == "op" and a[1] == "lshr" and is_c(a[4]) and 0 < a[4][2] < b1:
+        rr = _range(a[3])
+        if rr is not None and rr[0] >= 0:       # a non-negative value shifted right: both extensions agree and commute with the shift
+            return mk_bin("lshr", ty2, mk_cast("sext", ty, a[3], ty2), C(b2, a[4][2]))
     if op == "zext" and b1 and b2 and b2 <= 128 and a[0] == "op" and a[1] in ("add", "mul"):
         r3, r4 = _range(a[3]), _range(a[4])
         if r3 is not None and r4 is not None and r3[0] >= 0 and r4[0] >= 0:
@@ -582,6 +604,32 @@ def mk_ite0(c, x, y, _ctx=True):
         x2, y2 = subst(x, c, C(1, 1)), subst(y, c, C(1, 0))
         if x2 != x or y2 != y:
             return mk_ite0(c, x2, y2, False)
+    # range knowledge: inside the arms of `arg pred const` the parameter's interval is narrower, and the range-driven
+    # rewrites (extensions of non-negative values, shifts by bounded counts, ...) may apply there
+    if _ctx and c[0] == "icmp" and c[3][0] == "arg" and is_c(c[4]) and c[1] in ("sgt", "slt", "sge", "sle") and _bits(c[2]) and _bits(c[2]) <= 64 \
+            and _size(x) + _size(y) < 600:
+        X = c[3]
+        b_ = _bits(c[2])
+        cur = _RANGES.get(X, (-(1 << (b_ - 1)), (1 << (b_ - 1)) - 1))
+        tr, fr = _signed_interval(c, True), _signed_interval(c, False)
+        if tr is not None and fr is not None:
+            tr, fr = (max(tr[0], cur[0]), min(tr[1], cur[1])), (max(fr[0], cur[0]), min(fr[1], cur[1]))
+            had, old = X in _RANGES, _RANGES.get(X)
+            try:
+                x2, y2 = x, y
+                if tr[0] <= tr[1] and tr != cur:
+                    _RANGES[X] = tr
+                    x2 = rebuild(x, lambda e: None)
+                if fr[0] <= fr[1] and fr != cur:
+                    _RANGES[X] = fr
+                    y2 = rebuild(y, lambda e: None)
+            finally:
+                if had:
+                    _RANGES[X] = old
+                else:
+                    _RANGES.pop(X, None)
+            if x2 != x or y2 != y:
+                return mk_ite0(c, x2, y2, False)
     # sign knowledge: where X >= 0 is known, zext(X) and sext(X) are the same value (canonical: sext)
     if c[0] == "icmp" and is_c(c[4]) and c[1] in ("sgt", "slt", "sge", "sle"):
         k = sval(c[4])
@@ -963,7 +1011,7 @@ def gated(mod, fn, max_paths=4000, control_only=False):
                 return mk_extract(operand(m.group(2), m.group(1), env), m.group(3))
         if op == "call":
             m = re.match(r"^call (.+?) @([-\w.$]+)\((.*)\)$", body)
-            if m and m.group(2).startswith("llvm.") and not m.group(2).startswith(irmod.IMPURE_INTRINSICS):
+            if m and ((m.group(2).startswith("llvm.") and not m.group(2).startswith(irmod.IMPURE_INTRINSICS)) or m.group(2).startswith(irmod.OPAQUE_PREFIX)):
                 a = []
                 for part in irmod._split_top(m.group(3)):
                     ty, tok = part.rsplit(" ", 1) if " " in part else (part, "")
